@@ -800,6 +800,13 @@ func mergeMaps(dst, src map[string]any) (map[string]any, bool) {
 
 	if dst == nil {
 		dst = make(map[string]any)
+	} else {
+		// Do not modify the original: it may be a cached value which must stay intact if saving the update fails.
+		orig := dst
+		dst = make(map[string]any, len(orig))
+		for key, val := range orig {
+			dst[key] = val
+		}
 	}
 
 	for key, val := range src {
